@@ -8,7 +8,7 @@ func baseWeights() map[string]int {
 		"send": 14, "retire": 8, "cancel": 6,
 		"update_class_admin": 3, "update_class_issuers": 4, "update_class_metadata": 2,
 		"update_project_admin": 2, "update_project_metadata": 2, "update_batch_metadata": 3,
-		"bridge": 5, "bridge_receive": 6, "bridge_receive_bound": 4, "mint_replay": 3, "allowlist": 2, "class_creator": 3, "class_fee": 2, "bridge_chain": 3,
+		"bridge": 5, "bridge_receive": 6, "bridge_receive_bound": 4, "mint_replay": 3, "create_batch_replay": 2, "allowlist": 2, "class_creator": 3, "class_fee": 2, "bridge_chain": 3,
 		"burn_regen": 2, "unimplemented": 1, "bank_send": 8,
 		"basket_create": 4, "put": 14, "take": 12, "basket_fee": 2, "update_curator": 2, "update_date_criteria": 3,
 		"sell": 14, "update_sell": 10, "cancel_sell": 5, "buy": 16, "basket_token_market": 4, "allowed_denom": 3, "fee_params": 3, "fee_pool_send": 3,
@@ -51,7 +51,7 @@ func ProfileFor(prop string) Profile {
 		p.Hostile = 0.45
 		return p
 	case "C13":
-		p := tilt("bridge-heavy", map[string]int{"bridge": 8, "bridge_receive": 8, "bridge_receive_bound": 4, "mint_replay": 5, "mint": 4, "create_batch": 3, "bridge_chain": 5, "anchor": 0, "attest": 0, "define_resolver": 0, "register_resolver": 0, "resolver_combo": 0})
+		p := tilt("bridge-heavy", map[string]int{"bridge": 8, "bridge_receive": 8, "bridge_receive_bound": 4, "mint_replay": 5, "create_batch_replay": 5, "mint": 4, "create_batch": 3, "bridge_chain": 5, "anchor": 0, "attest": 0, "define_resolver": 0, "register_resolver": 0, "resolver_combo": 0})
 		return p
 	case "C14", "C17":
 		p := tilt("creation-heavy", map[string]int{"create_class": 6, "create_project": 8, "create_batch": 5, "bridge_receive": 3, "add_credit_type": 5, "basket_create": 3,
